@@ -729,3 +729,36 @@ fn model_op(emu: Emu, w: i32, h: i32, items: &[String]) -> String {
         _ => format!("term runo {} {} {} {}", emu.name(), w, h, its),
     }
 }
+
+/// the control-code alphabet of a byte-oriented emulation plus two printables; used for exhaustive short streams
+pub fn byte_alphabet(emu: Emu) -> Vec<Token> {
+    let codes: Vec<u32> = match emu {
+        Emu::Atascii => vec![0x1B, 0x1C, 0x1D, 0x1E, 0x1F, 0x7D, 0x7E, 0x7F, 0x9B, 0x9C, 0x9D, 0x9E, 0x9F, 0xFD, 0xFE, 0xFF, 0x41, 0xC1],
+        Emu::Petscii => vec![0x05, 0x0A, 0x0D, 0x0E, 0x11, 0x12, 0x13, 0x14, 0x1B, 0x1D, 0x8D, 0x8E, 0x91, 0x92, 0x93, 0x9D, 0xFF, 0x41, 0x44, 0x49, 0x4A, 0x4B, 0x50, 0x51, 0x40, 0x00],
+        Emu::Viewdata => vec![0x08, 0x09, 0x0A, 0x0B, 0x0C, 0x0D, 0x11, 0x14, 0x1B, 0x1E, 0x41, 0x5E, 0x7F, 0x00],
+        Emu::Mode7 => vec![0x08, 0x09, 0x0A, 0x0B, 0x0C, 0x0D, 0x1E, 0x7F, 0x81, 0x91, 0x9E, 0x9F, 0x41, 0xA0, 0xFF, 0x00],
+        Emu::Ascii => vec![0x00, 0x07, 0x08, 0x0A, 0x0C, 0x0D, 0x7F, 0xFF, 0x41],
+        Emu::Avatar => vec![0x0C, 0x16, 0x19, 0x01, 0x02, 0x03, 0x04, 0x05, 0x06, 0x07, 0x08, 0x0A, 0x41, 0xC8],
+        Emu::CtrlA => vec![0x01, 0x4C, 0x27, 0x4A, 0x3E, 0x3C, 0x7C, 0x5D, 0x41, 0x0A, 0xC8],
+        _ => vec![],
+    };
+    codes.into_iter().map(|c| Token { label: format!("b{:02x}", c), chars: vec![char::from_u32(c).unwrap()] }).collect()
+}
+
+/// all streams of exactly `depth` tokens over `alpha`, each preceded by `prefix`
+pub fn exhaustive(emu: Emu, w: i32, h: i32, prefix: &[Token], alpha: &[Token], depth: usize, out: &mut Vec<String>) {
+    let n = alpha.len();
+    if n == 0 {
+        return;
+    }
+    let total = n.pow(depth as u32);
+    for k in 0..total {
+        let mut toks: Vec<Token> = prefix.to_vec();
+        let mut v = k;
+        for _ in 0..depth {
+            toks.push(alpha[v % n].clone());
+            v /= n;
+        }
+        out.push(case_line(emu, w, h, &toks));
+    }
+}
